@@ -110,12 +110,19 @@ DamageOps == <<
   [name |-> "multiline-quoted-key-in-nested-flow-seq-after-explicit-entry", kind |-> "doc", frag |-> <<"[", "?", " ", "x", " ", ":", " ", "y", ",", " ", "[", "\"", "a", "\n", " ", "b", "\"", ":", " ", "c", "]", "]", "\n">>],
   [name |-> "content-after-document-end-2", kind |-> "stream", frag |-> <<"a", ":", " ", "b", "\n", ".", ".", ".", " ", "-", " ", "c", "\n">>] >>
 
-\* base: a well-formed stream ending with a line break (its text). placement: 0 = own document, 1 = nested
+\* base: a well-formed stream ending with a line break (its text). placement of an inline fragment: 0 = own document,
+\* 1 = last entry of a block sequence in a mapping, 2 = mapping value, 3 = entry of a flow sequence after another entry,
+\* 4 = the same after an explicit "? k : v" entry, 5 = value in a flow mapping nested in a block sequence
 Damaged(base, op, placement) ==
   LET sep == IF base = <<>> THEN <<>> ELSE <<".", ".", ".", "\n">>       \* end the previous document explicitly
+      D3 == <<"-", "-", "-", "\n">>
   IN IF op.kind = "stream" THEN base \o sep \o op.frag
      ELSE IF op.kind = "inline"
      THEN IF placement = 0 THEN base \o sep \o <<"-", "-", "-", " ">> \o op.frag \o <<"\n">>
-          ELSE base \o sep \o <<"-", "-", "-", "\n", "t", "o", "p", ":", "\n", " ", " ", "-", " ", "x", "\n", " ", " ", "-", " ">> \o op.frag \o <<"\n">>
+          ELSE IF placement = 1 THEN base \o sep \o <<"-", "-", "-", "\n", "t", "o", "p", ":", "\n", " ", " ", "-", " ", "x", "\n", " ", " ", "-", " ">> \o op.frag \o <<"\n">>
+          ELSE IF placement = 2 THEN base \o sep \o D3 \o <<"k", ":", " ">> \o op.frag \o <<"\n", "j", ":", " ", "w", "\n">>
+          ELSE IF placement = 3 THEN base \o sep \o D3 \o <<"[", "x", ",", " ">> \o op.frag \o <<"]", "\n">>
+          ELSE IF placement = 4 THEN base \o sep \o D3 \o <<"[", "?", " ", "k", " ", ":", " ", "v", ",", " ">> \o op.frag \o <<"]", "\n">>
+          ELSE base \o sep \o D3 \o <<"-", " ", "{", "k", ":", " ">> \o op.frag \o <<"}", "\n">>
      ELSE base \o sep \o <<"-", "-", "-", "\n">> \o op.frag
 =======================================================================
